@@ -122,18 +122,31 @@ def execute(case):
                                     ('^dtn://del/', 'delete')],
                    tx_routes=[('^dtn://fwd/', 'dtn://next/', None), ('^dtn://reports/', 'dtn://rp/', None),
                               ('^ipn:', 'dtn://rp/', None)])
+    seen = set()
     for index, item in enumerate(case['history']):
-        one(node, item, index, out)
+        one(node, item, index, out, seen)
     for esc in node.escapes():
         out.fail('escape:%s@%s' % (esc.exc_type, esc.frame), 'exception escaped a main-loop callback: %s: %s' % (esc.exc_type, esc.exc_msg[:120]))
     return out
 
 
-def one(node, item, index, out):
+def one(node, item, index, out, seen):
     from vlib import ref9171 as r
     bundle = build(item, index)
     outcome = item['outcome']
     wire = r.encode(bundle)
+    ident = (tuple(bundle['primary']['src']), tuple(bundle['primary']['ts']))
+    if ident in seen:
+        # two items of a history happen to have the same identity: the second is a repeat, which the agent ignores
+        # (C10); nothing about reports is to be judged for it
+        n_before = len(node.sent())
+        node.receive(wire)
+        if len(node.sent()) != n_before:
+            out.fail('repeat-causes-output', 'a repeat of an already processed bundle made the agent transmit %d bundle(s)'
+                     % (len(node.sent()) - n_before))
+        out.label('repeat-in-history')
+        return
+    seen.add(ident)
     if outcome == 'forward-frag':
         empty = dict(bundle, blocks=bundle['blocks'][:-1] + [dict(bundle['blocks'][-1], data='')])
         node.config.tx_route_table[0].mtu = len(r.encode(empty)) + 80
